@@ -13,6 +13,7 @@ RULE = ("histories on DynGraph(edge_removal=False) / DynDiGraph(edge_removal=Fal
         "pair/order/instant in the window; all C02 queries follow that presence; the stream has exactly one '+' per "
         "pair at its first appearance and no '-'; snapshot ids == instants of accepted adds. distinct = distinct "
         "(canonical model state incl. global maximum, last op kind).")
+REQUIRED_CELLS = {t: ("reset x2", "accumulative:>1024-readds", "empty-bunch") for t in ("quick", "thorough")}
 MIN = {"quick": {"has_interaction(u,v,t)": 100000, "stream:plus==run-starts": 4000, "temporal_snapshots_ids": 4000,
                  "degree(t)": 2000},
        "thorough": {"has_interaction(u,v,t)": 2000000, "stream:plus==run-starts": 200000,
@@ -35,8 +36,55 @@ def passive_battery(ctx, dn, G, m):
         heavy(ctx, dn, G, m)
 
 
+def second_lives(ctx, dn, n):
+    """filled and inspected, emptied one to three times in a row, refilled unobserved with the same history shifted
+    in time, inspected at the end"""
+    from .. import driver as drv
+    for _ in range(n):
+        directed = ctx.rng.random() < 0.5
+        prog, fam = gen.random_program(ctx.rng, lambda: Model(directed, True), directed=directed, bulk=False,
+                                       tfamily="small", with_nodes=False, p_big=0, p_none=0)
+        shift = ctx.rng.choice((2, 5, 11))
+        resets = [(ctx.rng.choice(("clear", "clear_edges")),) for _i in range(ctx.rng.choice((1, 2, 2, 3)))]
+        full = list(prog) + resets + [(o[0], o[1], o[2], o[3] + shift, None if o[4] is None else o[4] + shift)
+                                      for o in prog]
+        _hist._case(ctx, "RESET-ACC", directed, full, removal=False)
+        ctx.cell("reset x%d" % len(resets))
+        G = drv.new_graph(dn, directed, False)
+        m = Model(directed, False)
+        ok = True
+        for i, op in enumerate(full):
+            ok, _r = drv.step(ctx, dn, G, m, op)
+            if not ok:
+                break
+            if i == len(prog) - 1 and m.P:
+                light(ctx, dn, G, m)
+        if ok and m.P:
+            light(ctx, dn, G, m)
+
+
+def many_readds(ctx, dn):
+    """one pair re-added 1100 times at separated instants on an accumulative graph"""
+    directed = ctx.rng.random() < 0.5
+    G = dn.DynDiGraph(edge_removal=False) if directed else dn.DynGraph(edge_removal=False)
+    m = Model(directed, False)
+    G.add_interaction(7, 8, 1)
+    m.apply(7, 8, 1, None)
+    for i in range(1100):
+        t = 3 + 2 * i
+        G.add_interaction(0, 1, t)
+        m.apply(0, 1, t, None)
+    _hist._case(ctx, "MANY-READDS", directed, [("add", 0, 1, "3,5,...,2201", None)], removal=False)
+    ctx.cell("accumulative:>1024-readds")
+    audit.audit_presence(ctx, dn, G, m, ts=[0, 1, 2, 3, 4, 5, 100, 1001, 2201, 2202, 2203])
+    audit.audit_stream(ctx, dn, G, m)
+
+
 def run(ctx, dn):
     quick = ctx.tier == "quick"
+    second_lives(ctx, dn, 8 if quick else 80)
+    if ctx.shard % 4 == 2:
+        many_readds(ctx, dn)
     if ctx.shard == 0:
         from .. import passive
         ctx.notes["passive_graphs"] = passive.run(ctx, dn, passive_battery)
